@@ -117,7 +117,7 @@ class SymEval:
                  call_models: dict[str, Callable] | None = None,
                  atom_map: Callable[[ast.AST, 'Frame'], str | None] | None = None,
                  inline: bool = True, max_paths: int = 4096, watch_calls: bool = False,
-                 no_inline: set[str] | None = None) -> None:
+                 no_inline: set[str] | None = None, inline_only: set[str] | None = None) -> None:
         self.repo = repo
         self.bitnames = bitnames or default_bitnames(repo)
         self.call_models = call_models or {}
@@ -126,6 +126,7 @@ class SymEval:
         self.max_paths = max_paths
         self.watch_calls = watch_calls
         self.no_inline = no_inline or set()
+        self.inline_only = inline_only
         self.decisions: dict[str, bool] = {}
         self.used: list[str] = []
         self.calls: list = []
@@ -768,9 +769,11 @@ class Frame:
         model = self.ev.call_models.get(name)
         if model is not None:
             return model(self, n, args, kwargs)
-        if isinstance(target, BoundMethod) and self.ev.inline and name not in self.ev.no_inline:
+        may_inline = self.ev.inline and name not in self.ev.no_inline and \
+            (self.ev.inline_only is None or name in self.ev.inline_only)
+        if isinstance(target, BoundMethod) and may_inline:
             return self._inline(target.fn, args, kwargs, target.obj)
-        if isinstance(target, FuncRef) and self.ev.inline and name not in self.ev.no_inline:
+        if isinstance(target, FuncRef) and may_inline:
             fi = self.ev.repo.mod(target.module).functions.get(target.qualname)
             if fi is not None:
                 return self._inline(fi, args, kwargs, None)
